@@ -22,49 +22,49 @@ Proof.
   - intro H. destruct (bytes_eqb a b) eqn:E; auto. apply bytes_eqb_iff in E. contradiction.
 Qed.
 
-Lemma value_eqb_iff : forall a b, value_eqb a b = true <-> a = b.
+Lemma kvalue_eqb_iff : forall a b, kvalue_eqb a b = true <-> a = b.
 Proof.
   intros a b. split.
-  - destruct a, b; unfold value_eqb; intro H; try discriminate H; try reflexivity;
+  - destruct a, b; unfold kvalue_eqb; intro H; try discriminate H; try reflexivity;
       try (apply bytes_eqb_iff in H; congruence); try (apply Z.eqb_eq in H; congruence);
       try (apply Bool.eqb_prop in H; congruence).
-  - intros <-. destruct a; unfold value_eqb; auto using bytes_eqb_refl, Z.eqb_refl, Bool.eqb_reflx.
+  - intros <-. destruct a; unfold kvalue_eqb; auto using bytes_eqb_refl, Z.eqb_refl, Bool.eqb_reflx.
 Qed.
 
-Lemma tuple_eqb_iff : forall a b, tuple_eqb a b = true <-> a = b.
+Lemma ktuple_eqb_iff : forall a b, ktuple_eqb a b = true <-> a = b.
 Proof.
   induction a as [|x a IH]; destruct b as [|y b]; simpl; split; intro H; try discriminate; auto.
-  - apply andb_true_iff in H. destruct H as [H1 H2]. apply value_eqb_iff in H1. apply IH in H2. congruence.
-  - injection H as -> ->. apply andb_true_iff. split; [apply value_eqb_iff | apply IH]; reflexivity.
+  - apply andb_true_iff in H. destruct H as [H1 H2]. apply kvalue_eqb_iff in H1. apply IH in H2. congruence.
+  - injection H as -> ->. apply andb_true_iff. split; [apply kvalue_eqb_iff | apply IH]; reflexivity.
 Qed.
 
-Lemma tuple_eqb_refl : forall a, tuple_eqb a a = true.
-Proof. intro a. apply tuple_eqb_iff. reflexivity. Qed.
+Lemma ktuple_eqb_refl : forall a, ktuple_eqb a a = true.
+Proof. intro a. apply ktuple_eqb_iff. reflexivity. Qed.
 
 (* ---- decimal printing is injective and produces digits only ------------------------------ *)
 Definition is_digit (x : byte) : Prop := (48 <= x <= 57)%N.
 
-Lemma uint_bytes_digits : forall d, Forall is_digit (uint_bytes d).
+Lemma uint_bytes_digits : forall d, Forall is_digit (k_uint_bytes d).
 Proof. induction d; simpl; constructor; auto; unfold is_digit; lia. Qed.
 
-Lemma uint_bytes_inj : forall a b, uint_bytes a = uint_bytes b -> a = b.
+Lemma uint_bytes_inj : forall a b, k_uint_bytes a = k_uint_bytes b -> a = b.
 Proof.
   induction a; destruct b; simpl; intro H; try discriminate H; try reflexivity;
     injection H as H; f_equal; auto.
 Qed.
 
-Lemma dec_N_inj : forall a b, dec_N a = dec_N b -> a = b.
+Lemma dec_N_inj : forall a b, k_dec_N a = k_dec_N b -> a = b.
 Proof.
-  unfold dec_N. intros a b H. apply uint_bytes_inj in H.
+  unfold k_dec_N. intros a b H. apply uint_bytes_inj in H.
   rewrite <- (DecimalN.Unsigned.of_to a), <- (DecimalN.Unsigned.of_to b). congruence.
 Qed.
 
-Lemma uint_bytes_no_minus : forall d x, uint_bytes d <> 45%N :: x.
+Lemma uint_bytes_no_minus : forall d x, k_uint_bytes d <> 45%N :: x.
 Proof. destruct d; simpl; intros x H; discriminate H. Qed.
 
-Lemma dec_Z_inj : forall a b, dec_Z a = dec_Z b -> a = b.
+Lemma dec_Z_inj : forall a b, k_dec_Z a = k_dec_Z b -> a = b.
 Proof.
-  unfold dec_Z. intros a b H.
+  unfold k_dec_Z. intros a b H.
   rewrite <- (DecimalZ.of_to a), <- (DecimalZ.of_to b).
   destruct (Z.to_int a) as [da|da], (Z.to_int b) as [db|db].
   - apply uint_bytes_inj in H. congruence.
@@ -73,10 +73,10 @@ Proof.
   - injection H as H. apply uint_bytes_inj in H. congruence.
 Qed.
 
-Lemma dec_N_no_colon : forall n, Forall (fun x => x <> colon) (dec_N n).
+Lemma dec_N_no_colon : forall n, Forall (fun x => x <> k_colon) (k_dec_N n).
 Proof.
-  intro n. unfold dec_N. eapply Forall_impl; [|apply uint_bytes_digits].
-  unfold is_digit, colon. intros x Hx. lia.
+  intro n. unfold k_dec_N. eapply Forall_impl; [|apply uint_bytes_digits].
+  unfold is_digit, k_colon. intros x Hx. lia.
 Qed.
 
 (* ---- list lemmas -------------------------------------------------------------------------- *)
@@ -114,7 +114,7 @@ Proof.
 Qed.
 
 (* ---- the encoder -------------------------------------------------------------------------- *)
-Lemma type_key_inj : forall v w, type_key v = type_key w -> v = w.
+Lemma type_key_inj : forall v w, k_type_key v = k_type_key w -> v = w.
 Proof.
   intros v w H.
   destruct v as [|s|z|t|[|]], w as [|s'|z'|t'|[|]]; simpl in H;
@@ -126,9 +126,9 @@ Qed.
 
 (* one segment is self-delimiting: whatever follows it *)
 Lemma key_part_app_inj : forall v w x y,
-  key_part v ++ x = key_part w ++ y -> v = w /\ x = y.
+  k_key_part v ++ x = k_key_part w ++ y -> v = w /\ x = y.
 Proof.
-  unfold key_part. intros v w x y H.
+  unfold k_key_part. intros v w x y H.
   rewrite <- !app_assoc in H. simpl in H.
   apply split_at_sep in H; try apply dec_N_no_colon.
   destruct H as [HL H].
@@ -138,9 +138,9 @@ Proof.
   destruct H as [HT H]. apply type_key_inj in HT. simpl in H. injection H as H. auto.
 Qed.
 
-Lemma key_part_nonempty : forall v x, key_part v ++ x <> [].
+Lemma key_part_nonempty : forall v x, k_key_part v ++ x <> [].
 Proof.
-  unfold key_part. intros v x H. destruct (dec_N (N.of_nat (length (type_key v)))); discriminate H.
+  unfold k_key_part. intros v x H. destruct (k_dec_N (N.of_nat (length (k_type_key v)))); discriminate H.
 Qed.
 
 (* MAIN: the composite key is injective on tuples of any lengths *)
@@ -160,39 +160,39 @@ Proof.
   unfold tuple_key in H. apply enc_tuple_inj. exact H.
 Qed.
 
-Lemma tuple_of_length : forall r, length (tuple_of r) = length (rvals r).
-Proof. intro r. unfold tuple_of. apply map_length. Qed.
+Lemma ktuple_of_length : forall r, length (ktuple_of r) = length (kvals r).
+Proof. intro r. unfold ktuple_of. apply map_length. Qed.
 
-Lemma win_key_iff : forall g r1 r2, length (rvals r1) = length (rvals r2) ->
-  (win_key g r1 = win_key g r2 <-> tuple_of r1 = tuple_of r2).
+Lemma win_key_iff : forall g r1 r2, length (kvals r1) = length (kvals r2) ->
+  (win_key g r1 = win_key g r2 <-> ktuple_of r1 = ktuple_of r2).
 Proof.
   intros g r1 r2 L. unfold win_key. split.
-  - apply tuple_key_inj. rewrite !tuple_of_length. exact L.
+  - apply tuple_key_inj. rewrite !ktuple_of_length. exact L.
   - intros ->. reflexivity.
 Qed.
 
-Lemma agg_key_iff : forall r1 r2, agg_key r1 = agg_key r2 <-> tuple_of r1 = tuple_of r2.
+Lemma agg_key_iff : forall r1 r2, agg_key r1 = agg_key r2 <-> ktuple_of r1 = ktuple_of r2.
 Proof.
   intros r1 r2. unfold agg_key. split; [apply enc_tuple_inj | intros ->; reflexivity].
 Qed.
 
 (* ---- grouping by an injective key is grouping by the tuple -------------------------------- *)
 Section Grouping.
-  Variable kf : list value -> bytes.
-  Variable P : list value -> Prop.
+  Variable kf : list kvalue -> bytes.
+  Variable P : list kvalue -> Prop.
   Hypothesis kf_inj : forall a b, P a -> P b -> kf a = kf b -> a = b.
-  Let key (r : row) : bytes := kf (tuple_of r).
-  Let sel (t : list value) (rows : list row) : list row :=
-    filter (fun r => tuple_eqb (tuple_of r) t) rows.
+  Let key (r : krow) : bytes := kf (ktuple_of r).
+  Let sel (t : list kvalue) (rows : list krow) : list krow :=
+    filter (fun r => ktuple_eqb (ktuple_of r) t) rows.
 
-  Lemma g_add_keys_in : forall st k t r, In k (map fst st) -> map fst (g_add st k t r) = map fst st.
+  Lemma g_add_keys_in : forall st k t r, In k (map fst st) -> map fst (kg_add st k t r) = map fst st.
   Proof.
     induction st as [|[k0 [t0 rs0]] st IH]; simpl; intros k t r Hin; [contradiction|].
     destruct (bytes_eqb k k0) eqn:E; simpl; [reflexivity|].
     f_equal. apply IH. destruct Hin as [->|Hin]; auto. rewrite bytes_eqb_refl in E. discriminate.
   Qed.
 
-  Lemma g_add_keys_new : forall st k t r, ~ In k (map fst st) -> map fst (g_add st k t r) = map fst st ++ [k].
+  Lemma g_add_keys_new : forall st k t r, ~ In k (map fst st) -> map fst (kg_add st k t r) = map fst st ++ [k].
   Proof.
     induction st as [|[k0 [t0 rs0]] st IH]; simpl; intros k t r Hin; [reflexivity|].
     destruct (bytes_eqb k k0) eqn:E; simpl.
@@ -201,7 +201,7 @@ Section Grouping.
   Qed.
 
   Lemma g_add_in_inv : forall st k t r k' t' rs', NoDup (map fst st) ->
-    In (k', (t', rs')) (g_add st k t r) ->
+    In (k', (t', rs')) (kg_add st k t r) ->
     (k' <> k /\ In (k', (t', rs')) st)
     \/ (k' = k /\ exists rs, In (k, (t', rs)) st /\ rs' = rs ++ [r])
     \/ (k' = k /\ ~ In k (map fst st) /\ t' = t /\ rs' = [r]).
@@ -221,7 +221,7 @@ Section Grouping.
           -- right. right. split; auto. split; auto. intros [H|H]; auto.
   Qed.
 
-  Lemma g_add_has : forall st k t r, exists t' rs, In (k, (t', rs)) (g_add st k t r).
+  Lemma g_add_has : forall st k t r, exists t' rs, In (k, (t', rs)) (kg_add st k t r).
   Proof.
     induction st as [|[k0 [t0 rs0]] st IH]; simpl; intros k t r.
     - exists t, [r]. auto.
@@ -231,7 +231,7 @@ Section Grouping.
   Qed.
 
   Lemma g_add_keeps : forall st k t r k' t' rs, In (k', (t', rs)) st ->
-    exists rs2, In (k', (t', rs2)) (g_add st k t r).
+    exists rs2, In (k', (t', rs2)) (kg_add st k t r).
   Proof.
     induction st as [|[k0 [t0 rs0]] st IH]; simpl; intros k t r k' t' rs Hin; [contradiction|].
     destruct (bytes_eqb k k0) eqn:E.
@@ -243,10 +243,10 @@ Section Grouping.
       + destruct (IH k t r k' t' rs Hin) as [rs2 H]. exists rs2. right. exact H.
   Qed.
 
-  Definition GInv (st : gstate) (rows : list row) : Prop :=
+  Definition GInv (st : kg_state) (rows : list krow) : Prop :=
     (forall k t rs, In (k, (t, rs)) st -> k = kf t /\ P t /\ rs = sel t rows /\ rs <> [])
     /\ NoDup (map fst st)
-    /\ (forall r, In r rows -> exists rs, In (key r, (tuple_of r, rs)) st).
+    /\ (forall r, In r rows -> exists rs, In (key r, (ktuple_of r, rs)) st).
 
   Lemma sel_app : forall t a b, sel t (a ++ b) = sel t a ++ sel t b.
   Proof. intros. unfold sel. apply filter_app. Qed.
@@ -257,47 +257,47 @@ Section Grouping.
     rewrite (H x) by auto. apply IH. intros. apply H. auto.
   Qed.
 
-  Lemma GInv_step : forall st rows r, GInv st rows -> P (tuple_of r) ->
-    GInv (g_step key st r) (rows ++ [r]).
+  Lemma GInv_step : forall st rows r, GInv st rows -> P (ktuple_of r) ->
+    GInv (kg_step key st r) (rows ++ [r]).
   Proof.
-    intros st rows r [I1 [I2 I3]] HP. unfold g_step. fold (key r). split; [|split].
+    intros st rows r [I1 [I2 I3]] HP. unfold kg_step. fold (key r). split; [|split].
     - intros k t rs Hin. apply g_add_in_inv in Hin; [|exact I2].
       destruct Hin as [[Hne Hin]|[[-> [rs0 [Hin ->]]]|[-> [Hnot [-> ->]]]]].
       + destruct (I1 _ _ _ Hin) as [Hk [HPt [Hrs Hnn]]]. repeat split; auto.
         rewrite sel_app. unfold sel at 2. simpl.
-        destruct (tuple_eqb (tuple_of r) t) eqn:E.
-        * apply tuple_eqb_iff in E. exfalso. apply Hne. unfold key. congruence.
+        destruct (ktuple_eqb (ktuple_of r) t) eqn:E.
+        * apply ktuple_eqb_iff in E. exfalso. apply Hne. unfold key. congruence.
         * rewrite app_nil_r. exact Hrs.
       + destruct (I1 _ _ _ Hin) as [Hk [HPt [Hrs Hnn]]].
-        assert (t = tuple_of r) as -> by (apply kf_inj; auto).
+        assert (t = ktuple_of r) as -> by (apply kf_inj; auto).
         repeat split; auto.
-        * rewrite sel_app. unfold sel at 2. simpl. rewrite tuple_eqb_refl. congruence.
+        * rewrite sel_app. unfold sel at 2. simpl. rewrite ktuple_eqb_refl. congruence.
         * intro H. destruct rs0; discriminate H.
       + repeat split; auto.
-        * rewrite sel_app. unfold sel at 2. simpl. rewrite tuple_eqb_refl.
+        * rewrite sel_app. unfold sel at 2. simpl. rewrite ktuple_eqb_refl.
           unfold sel. rewrite filter_none; [reflexivity|].
-          intros x Hx. destruct (tuple_eqb (tuple_of x) (tuple_of r)) eqn:E; auto.
-          apply tuple_eqb_iff in E. exfalso. apply Hnot.
+          intros x Hx. destruct (ktuple_eqb (ktuple_of x) (ktuple_of r)) eqn:E; auto.
+          apply ktuple_eqb_iff in E. exfalso. apply Hnot.
           destruct (I3 x Hx) as [rs Hin]. unfold key in Hin. rewrite E in Hin.
-          change (key r) with (fst (key r, (tuple_of r, rs))). apply in_map. exact Hin.
+          change (key r) with (fst (key r, (ktuple_of r, rs))). apply in_map. exact Hin.
         * discriminate.
     - destruct (in_dec (list_eq_dec N.eq_dec) (key r) (map fst st)) as [Hin|Hnot].
       + rewrite g_add_keys_in; auto.
       + rewrite g_add_keys_new; auto. apply NoDup_app_snoc; auto.
     - intros x Hx. apply in_app_or in Hx. destruct Hx as [Hx|[<-|[]]].
       + destruct (I3 x Hx) as [rs Hin]. eapply g_add_keeps. exact Hin.
-      + destruct (g_add_has st (key r) (tuple_of r) r) as [t' [rs Hin]].
+      + destruct (g_add_has st (key r) (ktuple_of r) r) as [t' [rs Hin]].
         assert (Hin' := Hin). apply g_add_in_inv in Hin'; [|exact I2].
         destruct Hin' as [[Hne _]|[[_ [rs0 [Hin0 _]]]|[_ [_ [-> _]]]]].
         * congruence.
         * destruct (I1 _ _ _ Hin0) as [Hk [HPt _]].
-          assert (t' = tuple_of r) as -> by (apply kf_inj; auto).
+          assert (t' = ktuple_of r) as -> by (apply kf_inj; auto).
           exists rs. exact Hin.
         * exists rs. exact Hin.
   Qed.
 
-  Lemma GInv_run : forall rows st rows0, GInv st rows0 -> Forall (fun r => P (tuple_of r)) rows ->
-    GInv (fold_left (g_step key) rows st) (rows0 ++ rows).
+  Lemma GInv_run : forall rows st rows0, GInv st rows0 -> Forall (fun r => P (ktuple_of r)) rows ->
+    GInv (fold_left (kg_step key) rows st) (rows0 ++ rows).
   Proof.
     induction rows as [|r rows IH]; simpl; intros st rows0 HI HP.
     - rewrite app_nil_r. exact HI.
@@ -310,15 +310,15 @@ Section Grouping.
   Proof. split; [|split]; simpl; try constructor; intros; contradiction. Qed.
 
   (* the grouping theorem, for any key that is injective on the tuples that occur *)
-  Theorem group_by_partition : forall rows, Forall (fun r => P (tuple_of r)) rows ->
-    let res := group_by key rows in
+  Theorem group_by_partition : forall rows, Forall (fun r => P (ktuple_of r)) rows ->
+    let res := kgroup_by key rows in
     NoDup (map fst res)
-    /\ (forall t, In t (map fst res) <-> exists r, In r rows /\ tuple_of r = t)
+    /\ (forall t, In t (map fst res) <-> exists r, In r rows /\ ktuple_of r = t)
     /\ (forall t rs, In (t, rs) res -> rs = sel t rows /\ rs <> []).
   Proof.
     intros rows HP res.
     destruct (GInv_run rows [] [] GInv_init HP) as [I1 [I2 I3]]. simpl in *.
-    set (st := fold_left (g_step key) rows []) in *.
+    set (st := fold_left (kg_step key) rows []) in *.
     assert (Hres : res = map snd st) by reflexivity.
     split; [|split].
     - rewrite Hres, map_map.
@@ -331,10 +331,10 @@ Section Grouping.
         destruct (I1 _ _ _ Hin) as [_ [_ [Hrs Hnn]]].
         destruct rs as [|r rs]; [contradiction|].
         assert (Hr : In r (sel t rows)) by (rewrite <- Hrs; left; reflexivity).
-        unfold sel in Hr. apply filter_In in Hr. destruct Hr as [Hr Ht]. apply tuple_eqb_iff in Ht.
+        unfold sel in Hr. apply filter_In in Hr. destruct Hr as [Hr Ht]. apply ktuple_eqb_iff in Ht.
         exists r. auto.
       + intros [r [Hr <-]]. destruct (I3 r Hr) as [rs Hin].
-        apply in_map_iff. exists (key r, (tuple_of r, rs)). auto.
+        apply in_map_iff. exists (key r, (ktuple_of r, rs)). auto.
     - intros t rs Hin. rewrite Hres in Hin. apply in_map_iff in Hin.
       destruct Hin as [[k [t' rs']] [E Hin]]. simpl in E. injection E as -> ->.
       destruct (I1 _ _ _ Hin) as [_ [_ [Hrs Hnn]]]. auto.
@@ -343,11 +343,11 @@ End Grouping.
 
 (* aggregator: all tuples *)
 Theorem group_partition : forall rows,
-  let res := group rows in
+  let res := kgroup rows in
   NoDup (map fst res)
-  /\ (forall t, In t (map fst res) <-> exists r, In r rows /\ tuple_of r = t)
+  /\ (forall t, In t (map fst res) <-> exists r, In r rows /\ ktuple_of r = t)
   /\ (forall t rs, In (t, rs) res ->
-        rs = filter (fun r => tuple_eqb (tuple_of r) t) rows /\ rs <> []).
+        rs = filter (fun r => ktuple_eqb (ktuple_of r) t) rows /\ rs <> []).
 Proof.
   intro rows.
   apply (group_by_partition enc_tuple (fun _ => True)).
@@ -358,25 +358,25 @@ Qed.
 (* the per-key maps of the keyed windows (sessions, global groups, counting buffers): rows of
    one query all carry the same number of grouping columns *)
 Theorem group_partition_win : forall g c rows,
-  Forall (fun r => length (rvals r) = c) rows ->
-  let res := group_by (win_key g) rows in
+  Forall (fun r => length (kvals r) = c) rows ->
+  let res := kgroup_by (win_key g) rows in
   NoDup (map fst res)
-  /\ (forall t, In t (map fst res) <-> exists r, In r rows /\ tuple_of r = t)
+  /\ (forall t, In t (map fst res) <-> exists r, In r rows /\ ktuple_of r = t)
   /\ (forall t rs, In (t, rs) res ->
-        rs = filter (fun r => tuple_eqb (tuple_of r) t) rows /\ rs <> []).
+        rs = filter (fun r => ktuple_eqb (ktuple_of r) t) rows /\ rs <> []).
 Proof.
   intros g c rows HC.
   apply (group_by_partition (tuple_key g) (fun t => length t = c)).
   - intros a b Ha Hb. apply tuple_key_inj. congruence.
-  - eapply Forall_impl; [|exact HC]. intros r Hr. simpl. rewrite tuple_of_length. exact Hr.
+  - eapply Forall_impl; [|exact HC]. intros r Hr. simpl. rewrite ktuple_of_length. exact Hr.
 Qed.
 
 (* output naming: the i-th grouping value is reported under the i-th output name *)
 Lemma report_lookup : forall names t i n,
   NoDup names -> length names = length t -> nth_error names i = Some n ->
-  lookup n (report names t) = nth_error t i.
+  klookup n (kreport names t) = nth_error t i.
 Proof.
-  unfold report.
+  unfold kreport.
   induction names as [|m names IH]; intros t i n ND L Hn.
   - destruct i; discriminate Hn.
   - destruct t as [|v t]; [discriminate L|]. simpl in L. injection L as L.
@@ -393,7 +393,7 @@ Lemma enc_old_agg_sep_refuted :
   exists a b, a <> b /\ length a = length b /\ enc_old_agg a = enc_old_agg b.
 Proof.
   (* ("a\x1fb","c") vs ("a","b\x1fc") *)
-  exists [VStr [97; 31; 98]; VStr [99]]%N, [VStr [97]; VStr [98; 31; 99]]%N.
+  exists [KStr [97; 31; 98]; KStr [99]]%N, [KStr [97]; KStr [98; 31; 99]]%N.
   split; [discriminate|split; reflexivity].
 Qed.
 
@@ -401,7 +401,7 @@ Lemma enc_old_agg_null_refuted :
   exists a b, a <> b /\ length a = length b /\ enc_old_agg a = enc_old_agg b.
 Proof.
   (* the string "\x00NULL" vs NULL *)
-  exists [VStr [0; 78; 85; 76; 76]]%N, [VNull].
+  exists [KStr [0; 78; 85; 76; 76]]%N, [KNull].
   split; [discriminate|split; reflexivity].
 Qed.
 
@@ -409,7 +409,7 @@ Lemma enc_old_win_sep_refuted :
   exists a b, a <> b /\ length a = length b /\ enc_old_win a = enc_old_win b.
 Proof.
   (* ("a|b","c") vs ("a","b|c") *)
-  exists [VStr [97; 124; 98]; VStr [99]]%N, [VStr [97]; VStr [98; 124; 99]]%N.
+  exists [KStr [97; 124; 98]; KStr [99]]%N, [KStr [97]; KStr [98; 124; 99]]%N.
   split; [discriminate|split; reflexivity].
 Qed.
 
@@ -417,6 +417,6 @@ Lemma enc_old_win_null_refuted :
   exists a b, a <> b /\ length a = length b /\ enc_old_win a = enc_old_win b.
 Proof.
   (* NULL vs "" *)
-  exists [VNull], [VStr []].
+  exists [KNull], [KStr []].
   split; [discriminate|split; reflexivity].
 Qed.
